@@ -1,10 +1,11 @@
 (* C01, the liveness half: a cookie-following client whose last accepted request
-   lies less than SessionExpiry (minus the JSON codec's resolution) back, from an
-   acceptable peer and agent, with the cache in use, is given its own session
-   again. The history-level statement with its ghost (when and from where each
-   client's last accepted request came), tests of it on model runs, and what is
-   proved: the per-step core from the state (C04/C18 lifted to request steps and
-   to the jar invariant of C01Hist*.v) and the single-client run of C03. *)
+   lies less than SessionExpiry (minus the JSON codec's resolution) back and came
+   from the same peer with the same agent, with the cache in use, is given its own
+   session again. The history-level statement with its ghost (when and from where
+   each client's last accepted request came) and tests of it on model runs; the
+   variant that asks only for a peer and agent Start's rules accept, refuted at
+   cache size 1. What is proved (the per-step core from the state, and C03's run
+   theorem at a client of the jar invariant) is in C01Live2.v. *)
 From Sessions Require Import Model.Base Model.Sess Model.Hist Model.Corr Proofs.SessDefs
   Proofs.C01Spec.
 From Sessions Require Proofs.StartLaws4.
